@@ -255,6 +255,7 @@ pub enum Style {
 }
 
 struct Cx<'a> {
+    types: &'a FieldTypes,
     t: &'a [Tk],
     arr: &'static str,
     style: Style,
@@ -593,6 +594,13 @@ fn describe(cx: &Cx, name: &str, body: (usize, usize)) -> Row {
                     if !(idx_s == "i" || idx_s.starts_with("i +")) { kinds.push("?".into()); continue; }
                     let (mut kind, err, lits) = cx.modifiers(xe, &k);
                     if kind == "num" { if let Some(ty) = cx.let_type(xs) { kind = kind_of_type(&ty).into(); } }
+                    // `VAR = Some(<extraction>.parse()…)`: the type is that of the field `VAR` of the constructor(s) the arm builds
+                    if kind == "num" && xs >= 4 && is_p(&t[xs - 1], "(") && is_id(&t[xs - 2], "Some") && is_p(&t[xs - 3], "=") {
+                        if let Tk::Id(var) = &t[xs - 4] {
+                            let tys: BTreeSet<&String> = ctors.iter().filter_map(|c| cx.types.get(&(c.clone(), var.clone()))).collect();
+                            if tys.len() == 1 { kind = kind_of_type(tys.iter().next().unwrap()).into(); }
+                        }
+                    }
                     for l in lits { attributed.insert(l); }
                     kinds.push(show_slot(&kind, &err));
                 }
@@ -851,6 +859,48 @@ fn parse_cond(t: &[Tk], var_kw: &BTreeMap<String, String>, counts: &BTreeMap<Str
     if i == t.len() { Some(r) } else { None }
 }
 
+/// the numeric type of every named field of every struct-like `Command` variant (`Set { ex: Option<i64>, … }` →
+/// ("Set", "ex") → "i64"), from command.rs: resolves a `.parse()` whose target type the arm does not spell out
+pub type FieldTypes = BTreeMap<(String, String), String>;
+
+pub fn field_types(command_rs: &str) -> FieldTypes {
+    let t = lex(command_rs);
+    let mut m = FieldTypes::new();
+    let lb = match find_pat(&t, 0, t.len(), "enum Command {", "") { Some((_, e, _)) => e - 1, None => return m };
+    let rb = close_of(&t, lb).unwrap_or(t.len());
+    let mut i = lb + 1;
+    while i < rb {
+        if let (Tk::Id(v), true) = (&t[i], i + 1 < rb && is_p(&t[i + 1], "{")) {
+            let c = close_of(&t, i + 1).unwrap_or(rb);
+            let mut j = i + 2;
+            while j < c {
+                if let (Tk::Id(f), true) = (&t[j], j + 1 < c && is_p(&t[j + 1], ":")) {
+                    // the type runs to the `,` at angle depth 0
+                    let mut k = j + 2;
+                    let mut d = 0i32;
+                    let mut ty: Option<String> = None;
+                    while k < c {
+                        match &t[k] {
+                            Tk::P(x) if x == "<" || x == "(" => d += 1,
+                            Tk::P(x) if x == ">" || x == ")" => d -= 1,
+                            Tk::P(x) if x == "," && d == 0 => break,
+                            Tk::Id(x) if matches!(x.as_str(), "i64" | "isize" | "u64" | "usize" | "u32" | "f64") => ty = Some(x.clone()),
+                            _ => {}
+                        }
+                        k += 1;
+                    }
+                    if let Some(ty) = ty { m.insert((v.clone(), f.clone()), ty); }
+                    j = k + 1;
+                } else { j += 1; }
+            }
+            i = c + 1;
+        } else if is_p(&t[i], "(") || is_p(&t[i], "{") || is_p(&t[i], "[") {
+            i = close_of(&t, i).unwrap_or(rb) + 1;
+        } else { i += 1; }
+    }
+    m
+}
+
 pub struct Extracted {
     /// the extract helpers: name, parsed type, text of a parse failure, every literal
     pub helpers: Vec<Row>,
@@ -863,7 +913,7 @@ pub struct Extracted {
 }
 
 /// the shape rows of one grammar, from its source text
-pub fn extract(src: &str, fn_name: &str, style: Style) -> Extracted {
+pub fn extract(src: &str, fn_name: &str, style: Style, types: &FieldTypes) -> Extracted {
     let mut out = Extracted { helpers: vec![], default_arm: "?".into(), rows: vec![], families: vec![], problems: vec![] };
     let mut toks = lex(src);
     // the zero-copy twin uses the same helpers under `_zc` names
@@ -928,12 +978,12 @@ pub fn extract(src: &str, fn_name: &str, style: Style) -> Extracted {
             }
         }
         if let Some(lb) = fam_match {
-            let cx_top = Cx { t, arr, style, first: 1 };
+            let cx_top = Cx { types, t, arr, style, first: 1 };
             let (_, aerr, _) = cx_top.arity((bs, lb));
             let sub_arms = parse_arms(t, lb);
             let dflt = sub_arms.iter().find(|x| arm_is_default(x));
             let dflt_text = dflt.map(|d| tk_text(&t[d.body.0..d.body.1]));
-            let cx = Cx { t, arr, style, first: 2 };
+            let cx = Cx { types, t, arr, style, first: 2 };
             for name in &names {
                 let mut fr: Row = BTreeMap::new();
                 fr.insert("name".into(), name.clone());
@@ -961,7 +1011,7 @@ pub fn extract(src: &str, fn_name: &str, style: Style) -> Extracted {
                 }
             }
         } else {
-            let cx = Cx { t, arr, style, first: if style == Style::Resp { 1 } else { 0 } };
+            let cx = Cx { types, t, arr, style, first: if style == Style::Resp { 1 } else { 0 } };
             for name in &names {
                 out.rows.push(describe(&cx, name, a.body));
             }
@@ -1003,4 +1053,344 @@ pub fn field_eq(field: &str, src: &str, model: &str) -> bool {
         }
         false
     })
+}
+
+// ---------------------------------------------------------------------------------------------
+// the regenerated tables as a Lean file (`Grammar.SRow` values + the theorems that tie them to the model)
+// ---------------------------------------------------------------------------------------------
+
+fn unhex_bytes(h: &str) -> Option<Vec<u8>> {
+    let h = h.strip_prefix('x')?;
+    if h.len() % 2 != 0 { return None; }
+    (0..h.len()).step_by(2).map(|i| u8::from_str_radix(h.get(i..i + 2)?, 16).ok()).collect()
+}
+
+/// a byte string as a Lean term of type `Bytes`
+fn lean_bytes_raw(b: &[u8]) -> String {
+    // numerals, not a string literal: `String.toList` on a literal costs the kernel milliseconds per character
+    format!("[{}]", b.iter().map(|c| c.to_string()).collect::<Vec<_>>().join(", "))
+}
+fn lean_hex(h: &str) -> Option<String> { unhex_bytes(h).map(|b| lean_bytes_raw(&b)) }
+fn lean_word(w: &str) -> String { lean_bytes_raw(w.as_bytes()) }
+
+fn lean_arity(a: &str) -> Option<String> {
+    let n = |s: &str| s.parse::<u64>().ok();
+    if a == "any" { return Some(".any".into()); }
+    if let Some(r) = a.strip_prefix("even-ge") { return n(r).map(|k| format!(".evenAtLeast {}", k)); }
+    if let Some(r) = a.strip_prefix("odd-ge") { return n(r).map(|k| format!(".oddAtLeast {}", k)); }
+    if let Some(r) = a.strip_prefix("eq") { return n(r).map(|k| format!(".exact {}", k)); }
+    if let Some(r) = a.strip_prefix("ge") { return n(r).map(|k| format!(".atLeast {}", k)); }
+    if let Some(r) = a.strip_prefix("in") { let (lo, hi) = r.split_once('-')?; return Some(format!(".between {} {}", n(lo)?, n(hi)?)); }
+    None
+}
+
+fn lean_arg(a: &str) -> Option<String> {
+    let (k, err) = match a.split_once('!') { Some((k, e)) => (k, Some(e)), None => (a, None) };
+    let kind = match k {
+        "str" | "sds" | "int" | "u64" | "flt" | "usz" | "kw" | "u32" => format!(".k .{}", k),
+        "num" => ".num".to_string(),
+        _ => return None,
+    };
+    let e = match err { Some(h) => format!("some {}", lean_hex(h)?), None => "none".to_string() };
+    Some(format!("⟨{}, {}⟩", kind, e))
+}
+
+fn lean_args(s: &str) -> Option<String> {
+    if s == "-" { return Some("[]".into()); }
+    let v: Option<Vec<String>> = s.split(',').map(lean_arg).collect();
+    Some(format!("[{}]", v?.join(", ")))
+}
+
+fn lean_tail(s: &str) -> Option<String> {
+    match s {
+        "none" => return Some(".none".into()),
+        "ignore" => return Some(".ignore".into()),
+        "raw" => return Some(".raw".into()),
+        "scan" => return Some(".scan".into()),
+        _ => {}
+    }
+    let p: Vec<&str> = s.split(':').collect();
+    match p.as_slice() {
+        ["many", a] => Some(format!(".many {}", lean_arg(a)?)),
+        ["pairs", a, b] => Some(format!(".pairs {} {}", lean_arg(a)?, lean_arg(b)?)),
+        ["flags", a, b, odd] => Some(format!(".flags {} {} {}", lean_arg(a)?, lean_arg(b)?, lean_hex(odd)?)),
+        _ => None,
+    }
+}
+
+fn lean_opts(s: &str) -> Option<String> {
+    if s == "-" { return Some("[]".into()); }
+    let mut out = Vec::new();
+    for o in s.split('|') {
+        let p: Vec<&str> = o.split(':').collect();
+        if p.len() < 3 { return None; }
+        let vals = lean_args(p[1])?;
+        let m = match p[2].strip_prefix("m=")? {
+            "-" => ".na".to_string(),
+            "crash" => ".crash".to_string(),
+            "ignore" => ".ignore".to_string(),
+            h => format!(".text {}", lean_hex(h)?),
+        };
+        let r = match p.get(3) { Some(r) => format!("some {}", lean_hex(r.strip_prefix("r=")?)?), None => "none".to_string() };
+        if p.len() > 4 { return None; }
+        out.push(format!("⟨{}, {}, {}, {}⟩", lean_word(p[0]), vals, m, r));
+    }
+    Some(format!("[{}]", out.join(", ")))
+}
+
+fn lean_unk(s: &str) -> Option<String> {
+    match s {
+        "-" => Some(".na".into()),
+        "break" => Some(".brk".into()),
+        "skip" => Some(".skip".into()),
+        _ => {
+            if let Some(h) = s.strip_prefix("lit:") { Some(format!(".lit {}", lean_hex(h)?)) }
+            else if let Some(h) = s.strip_prefix("fmt:") { Some(format!(".fmt {}", lean_hex(h)?)) }
+            else { None }
+        }
+    }
+}
+
+fn lean_hexlist(s: &str, sep: char) -> Option<String> {
+    if s == "-" || s.is_empty() { return Some("[]".into()); }
+    let v: Option<Vec<String>> = s.split(sep).map(lean_hex).collect();
+    Some(format!("[{}]", v?.join(", ")))
+}
+
+/// `KW` | `(A&&B)` | `(A||B)` | `count(A,B,…)>n`
+fn lean_cond(s: &str) -> Option<String> {
+    fn go(b: &[u8], i: &mut usize) -> Option<String> {
+        if b.get(*i) == Some(&b'(') {
+            *i += 1;
+            let l = go(b, i)?;
+            let op = b.get(*i..*i + 2)?;
+            let c = if op == b"&&" { ".and" } else if op == b"||" { ".or" } else { return None };
+            *i += 2;
+            let r = go(b, i)?;
+            if b.get(*i) != Some(&b')') { return None; }
+            *i += 1;
+            return Some(format!("({} {} {})", c, l, r));
+        }
+        if b[*i..].starts_with(b"count(") {
+            *i += 6;
+            let st = *i;
+            while *i < b.len() && b[*i] != b')' { *i += 1; }
+            let ws: Vec<String> = std::str::from_utf8(&b[st..*i]).ok()?.split(',').map(lean_word).collect();
+            *i += 1;
+            if b.get(*i) != Some(&b'>') { return None; }
+            *i += 1;
+            let ns = *i;
+            while *i < b.len() && b[*i].is_ascii_digit() { *i += 1; }
+            let n: u64 = std::str::from_utf8(&b[ns..*i]).ok()?.parse().ok()?;
+            return Some(format!("(.countGt [{}] {})", ws.join(", "), n));
+        }
+        let st = *i;
+        while *i < b.len() && (b[*i].is_ascii_alphanumeric() || b[*i] == b'-' || b[*i] == b'_') { *i += 1; }
+        if *i == st { return None; }
+        Some(format!("(.kw {})", lean_word(std::str::from_utf8(&b[st..*i]).ok()?)))
+    }
+    let b = s.as_bytes();
+    let mut i = 0;
+    let r = go(b, &mut i)?;
+    if i == b.len() { Some(r) } else { None }
+}
+
+fn lean_checks(s: &str) -> Option<String> {
+    if s == "-" { return Some("[]".into()); }
+    // rules are separated by a single `|` at parenthesis depth 0
+    let mut parts: Vec<String> = Vec::new();
+    let mut cur = String::new();
+    let mut d = 0i32;
+    for c in s.chars() {
+        match c {
+            '(' => { d += 1; cur.push(c); }
+            ')' => { d -= 1; cur.push(c); }
+            '|' if d == 0 => { parts.push(std::mem::take(&mut cur)); }
+            _ => cur.push(c),
+        }
+    }
+    parts.push(cur);
+    let mut out = Vec::new();
+    for p in parts {
+        let (c, t) = p.rsplit_once(':')?;
+        out.push(format!("({}, {})", lean_cond(c)?, lean_hex(t)?));
+    }
+    Some(format!("[{}]", out.join(", ")))
+}
+
+/// one `SRow` term; `Err(field)` names the first field the translator could not read (`?`) or this printer does
+/// not understand
+pub fn lean_row(r: &Row) -> Result<String, String> {
+    let g = |k: &str| r.get(k).cloned().unwrap_or_default();
+    let f = |k: &str, v: Option<String>| v.ok_or_else(|| format!("{}={}", k, g(k)));
+    let ctors = { let c = g("ctor"); if c.is_empty() { "[]".to_string() } else { format!("[{}]", c.split('|').map(lean_word).collect::<Vec<_>>().join(", ")) } };
+    Ok(format!("⟨{}, {}, {}, {}, {}, {}, {}, {}, {}, {}, {}⟩",
+        lean_word(&g("name")), f("arity", lean_arity(&g("arity")))?, f("aerr", lean_hex(&g("aerr")))?, ctors,
+        f("slots", lean_args(&g("slots")))?, f("opt", lean_args(&g("opt")))?, f("tail", lean_tail(&g("tail")))?,
+        f("opts", lean_opts(&g("opts")))?, f("unk", lean_unk(&g("unk")))?, f("flits", lean_hexlist(&g("flits"), ';'))?,
+        f("checks", lean_checks(&g("checks")))?))
+}
+
+/// `OK_Ctor_sx…_sx…` / `ERR_x…` as a Lean term of type `Except Bytes (Bytes × List Bytes)`
+fn lean_probe(p: &str) -> Option<String> {
+    if let Some(h) = p.strip_prefix("ERR_") { return Some(format!("(.error {})", lean_hex(h)?)); }
+    let rest = p.strip_prefix("OK_")?;
+    let mut it = rest.split('_');
+    let ctor = it.next()?;
+    let toks: Option<Vec<String>> = it.map(|t| lean_hex(t.strip_prefix('s')?)).collect();
+    Some(format!("(.ok ({}, [{}]))", lean_word(ctor), toks?.join(", ")))
+}
+
+/// the Lean file with the three regenerated tables and the theorems about them; also what could not be emitted
+/// `order_*`: the names of the model's rows / families in the model's order — every source row is looked up BY
+/// NAME and written at the model's position (the order of the match arms in the source does not matter); arms the
+/// model has no row for follow at the end (and make the tables differ)
+pub fn lean_file(repo: &str, sim: &Extracted, zc: &Extracted, lua: &Extracted, order_resp: &[String], order_lua: &[String], order_fam: &[String]) -> (String, Vec<String>) {
+    let mut unread: Vec<String> = Vec::new();
+    let pos = |order: &[String], n: &str| order.iter().position(|x| x == n).unwrap_or(usize::MAX);
+    let mut rows = |tag: &str, ex: &Extracted, order: &[String]| -> (String, usize) {
+        let mut v: Vec<&Row> = ex.rows.iter().collect();
+        v.sort_by_key(|r| { let n = r.get("name").cloned().unwrap_or_default(); (pos(order, &n), n) });
+        let mut out = Vec::new();
+        for r in v {
+            match lean_row(r) {
+                Ok(s) => out.push(format!("  {}", s)),
+                Err(e) => unread.push(format!("{}:{}:{}", tag, r.get("name").cloned().unwrap_or_default(), e)),
+            }
+        }
+        (format!("[\n{}\n]", out.join(",\n")), out.len())
+    };
+    let (resp_rows, n_resp) = rows("from_resp", sim, order_resp);
+    let (mut zc_rows, n_zc) = rows("from_resp_zero_copy", zc, order_resp);
+    let (lua_rows, n_lua) = rows("parse_lua_command_bytes", lua, order_lua);
+    // identical text = the same table: say so instead of repeating it (the equality theorem is then `rfl`)
+    if zc_rows == resp_rows { zc_rows = "respRows".to_string(); }
+    let mut fams = |tag: &str, ex: &Extracted| -> String {
+        let mut v: Vec<&Row> = ex.families.iter().collect();
+        v.sort_by_key(|r| { let n = r.get("name").cloned().unwrap_or_default(); (pos(order_fam, &n), n) });
+        let mut out = Vec::new();
+        for r in v {
+            let g = |k: &str| r.get(k).cloned().unwrap_or_default();
+            match (lean_hex(&g("aerr")), lean_probe(&g("probe"))) {
+                (Some(a), Some(p)) => out.push(format!("  ⟨{}, {}, {}⟩", lean_word(&g("name")), a, p)),
+                _ => unread.push(format!("{}:family:{}", tag, g("name"))),
+            }
+        }
+        format!("[\n{}\n]", out.join(",\n"))
+    };
+    let resp_fams = fams("from_resp", sim);
+    let mut zc_fams = fams("from_resp_zero_copy", zc);
+    if zc_fams == resp_fams { zc_fams = "respFamilies".to_string(); }
+    let mut dflt = |tag: &str, ex: &Extracted| -> String {
+        match lean_probe(&ex.default_arm) { Some(p) => p, None => { unread.push(format!("{}:default-arm", tag)); "(.error [])".to_string() } }
+    };
+    let (d_resp, d_zc, d_lua) = (dflt("from_resp", sim), dflt("from_resp_zero_copy", zc), dflt("parse_lua_command_bytes", lua));
+    let text = format!(r#"import RedisVerif.Props.C16Src
+
+/-!
+GENERATED on this run of `./check C16` by the source → shape-descriptor translator (harness/src/c16_shape.rs) from
+  {repo}/src/redis/parser.rs (Command::from_resp), {repo}/src/redis/commands.rs (Command::from_resp_zero_copy),
+  {repo}/src/redis/executor/script_ops.rs (parse_lua_command_bytes).
+Do not edit.  The hand-written tables (`Grammar.table`, `Grammar.luaTable`) are the cross-check.
+-/
+set_option maxRecDepth 100000
+namespace RedisVerif.C16.SrcGen
+open RedisVerif.Grammar RedisVerif.C16
+
+def respRows : List SRow := {resp_rows}
+
+def zcRows : List SRow := {zc_rows}
+
+def luaRows : List SRow := {lua_rows}
+
+def respFamilies : List SFamily := {resp_fams}
+
+def zcFamilies : List SFamily := {zc_fams}
+
+def respDefault : Except Bytes (Bytes × List Bytes) := {d_resp}
+def zcDefault : Except Bytes (Bytes × List Bytes) := {d_zc}
+def luaDefault : Except Bytes (Bytes × List Bytes) := {d_lua}
+
+/-! ### the regenerated tables against each other and against the normal form of the hand-written model
+  (`Model/GrammarShapesNF.lean`, proved at build time to describe `table` / `luaTable`: `respRowsNF_describes` …) -/
+
+theorem zc_rows_eq_resp_rows : zcRows = respRows := by decide +kernel
+theorem zc_families_eq_resp_families : zcFamilies = respFamilies := by decide +kernel
+theorem resp_rows_eq_model_nf : respRows = respRowsNF := by decide +kernel
+theorem lua_rows_eq_model_nf : luaRows = luaRowsNF := by decide +kernel
+theorem resp_families_eq_model_nf : respFamilies = familiesNF := by decide +kernel
+theorem default_arms_eq_model_nf : respDefault = respDefaultNF ∧ zcDefault = respDefault ∧ luaDefault = luaDefaultNF := by
+  decide +kernel
+
+theorem resp_rows_describe_model : rowsDescribe respRows (shapeRows table) = true :=
+  resp_rows_eq_model_nf ▸ respRowsNF_describes
+theorem lua_rows_describe_model : rowsDescribe luaRows (shapeRows luaTable) = true :=
+  lua_rows_eq_model_nf ▸ luaRowsNF_describes
+theorem resp_families_describe_model : familiesDescribe respFamilies table = true :=
+  resp_families_eq_model_nf ▸ familiesNF_describe
+theorem default_arms_describe_model :
+    respDefault = probeOf (parseCmd [s2b "ZZZ"]) ∧ zcDefault = respDefault ∧ luaDefault = probeOf (parseLua [s2b "ZZZ"]) :=
+  ⟨default_arms_eq_model_nf.1.trans defaultsNF_describe.1, default_arms_eq_model_nf.2.1,
+   default_arms_eq_model_nf.2.2.trans defaultsNF_describe.2⟩
+
+/-! ### what the regenerated tables mean for every frame (`Props/C16Src.lean` instantiated on THIS run's tables) -/
+
+theorem parsers_agree_regenerated :
+    rowsDescribe zcRows (shapeRows table) = true ∧ ∀ f : List Bytes, parseCmdZc f = parseCmd f :=
+  parsers_agree_src zc_rows_eq_resp_rows resp_rows_describe_model
+
+theorem from_resp_governed_by_regenerated_rows (name : Bytes) (args : List Bytes) (s : Spec)
+    (hf : findEntry table (kw name) = some (.cmd s)) :
+    ∃ r ∈ respRows, Described r (s.row []) ∧ r.name = kw name ∧
+      parseCmd (name :: args) =
+        if r.arity.ok args.length then liftB (runGen s.body.gen args) else .error (.arity r.aerr) :=
+  resp_governed resp_rows_describe_model name args s hf
+
+theorem from_resp_sub_governed_by_regenerated_rows (name sub : Bytes) (args : List Bytes) (fam aerr : Bytes)
+    (subs : List Spec) (dflt : Bytes → List Bytes → Res) (s : Spec)
+    (hf : findEntry table (kw name) = some (.family fam aerr subs dflt)) (hs : findSpec subs (kw sub) = some s) :
+    ∃ r ∈ respRows, Described r (s.row (fam ++ [46])) ∧ r.name = fam ++ 46 :: s.name ∧
+      parseCmd (name :: sub :: args) =
+        if r.arity.ok args.length then liftB (runGen s.body.gen args) else .error (.arity r.aerr) :=
+  resp_governed_sub resp_rows_describe_model name sub args fam aerr subs dflt s hf hs
+
+theorem translator_governed_by_regenerated_rows (name : Bytes) (args : List Bytes) (s : Spec)
+    (hf : findEntry luaTable (kw name) = some (.cmd s)) :
+    ∃ r ∈ luaRows, Described r (s.row []) ∧ r.name = kw name ∧
+      parseLua (name :: args) =
+        if r.arity.ok args.length then liftB (runGen s.body.gen args) else .error (.arity r.aerr) :=
+  lua_governed lua_rows_describe_model name args s hf
+
+theorem arity_exact_regenerated (name : Bytes) (args : List Bytes) (s : Spec)
+    (hf : findEntry table (kw name) = some (.cmd s)) :
+    ∃ r ∈ respRows, r.name = kw name ∧
+      (errText (parseCmd (name :: args)) = some r.aerr ↔ r.arity.ok args.length = false) :=
+  src_arity_exact resp_rows_describe_model name args s hf
+
+theorem alphabet_regenerated (name : Bytes) (args : List Bytes) (s : Spec)
+    (hf : findEntry table (kw name) = some (.cmd s)) :
+    ∃ r ∈ respRows, r.name = kw name ∧ SrcAllows r (parseCmd (name :: args)) :=
+  src_alphabet resp_rows_describe_model name args s hf
+
+theorem alphabet_lua_regenerated (name : Bytes) (args : List Bytes) (s : Spec)
+    (hf : findEntry luaTable (kw name) = some (.cmd s)) :
+    ∃ r ∈ luaRows, r.name = kw name ∧ SrcAllows r (parseLua (name :: args)) :=
+  src_alphabet_lua lua_rows_describe_model name args s hf
+
+theorem lua_agrees_regenerated (name : Bytes) (args : List Bytes) (c : Cmd)
+    (sl : Spec) (hfl : findEntry luaTable (kw name) = some (.cmd sl))
+    (s : Spec) (hf : findEntry table (kw name) = some (.cmd s)) (hacc : parseLua (name :: args) = .ok c) :
+    parseCmd (name :: args) = .ok c ∧ (∃ r ∈ luaRows, r.name = kw name) ∧ (∃ r ∈ respRows, r.name = kw name) :=
+  lua_agrees_src resp_rows_describe_model lua_rows_describe_model name args c sl hfl s hf hacc
+
+/-- non-vacuity: the regenerated tables are not empty and know SET in all three grammars -/
+theorem regenerated_tables_nonempty :
+    respRows.length = {n_resp} ∧ zcRows.length = {n_zc} ∧ luaRows.length = {n_lua} ∧
+    (respRows.any (·.name == [83, 69, 84]) && luaRows.any (·.name == [83, 69, 84])) = true := by decide +kernel
+
+end RedisVerif.C16.SrcGen
+"#, repo = repo, resp_rows = resp_rows, zc_rows = zc_rows, lua_rows = lua_rows, resp_fams = resp_fams, zc_fams = zc_fams,
+        d_resp = d_resp, d_zc = d_zc, d_lua = d_lua,
+        n_resp = n_resp, n_zc = n_zc, n_lua = n_lua);
+    (text, unread)
 }
